@@ -512,7 +512,11 @@ carquet_status_t carquet_read_data_page_v1(
                             }
                             break;
                         default:
-                            break;
+                            /* BOOLEAN: no dictionary was built for this type, nothing was
+                             * written to the output */
+                            CARQUET_SET_ERROR(error, CARQUET_ERROR_NOT_IMPLEMENTED,
+                                "Dictionary encoding is not supported for this physical type");
+                            return CARQUET_ERROR_NOT_IMPLEMENTED;
                     }
                 }
                 /* indices buffer is reused, don't free */
